@@ -63,22 +63,25 @@ def main():
         return 0
     m = json.load(open(os.path.join(VERIF, 'MANIFEST.json')))
     alarms = {}
-    rc, out = sh('git -C /repo apply %s' % patch)
+    # with VERIF_BENIGN_VIA_WORKTREE=1 the checks analyse the scratch worktree (--repo) instead of a patched /repo,
+    # so several refactorings can be evaluated at the same time
+    target = wt if os.environ.get('VERIF_BENIGN_VIA_WORKTREE') else '/repo'
+    rc, out = sh('git -C %s apply %s' % (target, patch))
     assert rc == 0, out
     try:
         ev = tempfile.mkdtemp(prefix='benign_ev_')
         from concurrent.futures import ThreadPoolExecutor
         pids = [c['property_id'] for c in m['checks']]
-        with ThreadPoolExecutor(16) as ex:
-            res = list(ex.map(lambda pid: sh('%s check %s --tier quick --evidence-dir %s' % (PY, pid, ev), cwd=VERIF, timeout=600), pids))
+        with ThreadPoolExecutor(int(os.environ.get('VERIF_BENIGN_JOBS', '16'))) as ex:
+            res = list(ex.map(lambda pid: sh('%s check %s --tier quick --repo %s --evidence-dir %s' % (PY, pid, target, ev), cwd=VERIF, timeout=900), pids))
         for pid, (rc, out) in zip(pids, res):
             if rc != 0:
                 lines = [l for l in out.splitlines() if 'VIOLATION' in l or 'ANALYSIS-ERROR' in l or '[R-' in l or '[D-' in l]
                 alarms[pid] = {'exit': rc, 'lines': lines[:8]}
         shutil.rmtree(ev, ignore_errors=True)
     finally:
-        sh('git -C /repo checkout -- .')
-        assert sh('git -C /repo status --short')[1].strip() == ''
+        sh('git -C %s checkout -- .' % target)
+        assert sh('git -C %s status --short' % target)[1].strip() == ''
     meta['alarms'] = alarms
     dst = os.path.join(VERIF, 'seeded', 'benign', name)
     os.makedirs(dst, exist_ok=True)
